@@ -108,6 +108,16 @@ class C02(Check):
         if kind == "clifford":
             weights = [4, 3, 2, 1, 0]
         entry = entries[tape.weighted(weights, "entry")]
+        if kind in ("sv", "dm") and not clifford:
+            # cirq.sample() picks a simulator from the circuit's content; the interesting inputs are the
+            # ones on which its "is this a Clifford circuit" test says yes for an unusual reason
+            try:
+                looks_clifford = all(cirq.has_stabilizer_effect(op) for op in circuit.all_operations())
+            except Exception:  # noqa: BLE001
+                looks_clifford = False
+            if looks_clifford and tape.chance(1, 2, "mux-on-clifford-looking?"):
+                entry = "sample"
+                ctx.probe("mux:clifford-looking-non-clifford-generator")
         for f in sorted(g.features):
             ctx.probe("feat:" + f)
         ctx.probe("sim:" + kind)
